@@ -510,3 +510,51 @@ def object_specification_twins(rep, rule, u, dmod):
               'Python: own specification, else implementedBy(ob.__class__), else _empty'
               if not probs else {'problems': sorted(set(probs))[:3]},
               construct='result-kinds', node=f)
+
+
+def descr_get_owner(rep, rule, u):
+    """every function installed in a tp_descr_get slot: the owner parameter is
+    NULL when __get__ is called with one argument (or with None), the instance
+    parameter is NULL on class access; never both.  On every path a bare use of
+    either as a call argument must follow a test that makes it non-NULL."""
+    import re as _re
+    from ..cfront import C_REL
+    from .cside import ccheck
+    src = rep.repo.source(C_REL) if hasattr(rep.repo, 'source') else ''
+    names = sorted(set(_re.findall(r'Py_tp_descr_get\s*,\s*(\w+)', src)) |
+                   set(_re.findall(r'\.tp_descr_get\s*=\s*(?:\(descrgetfunc\)\s*)?(\w+)',
+                                   src)))
+    rep.require(len(names) >= 2, 'tp_descr_get slot functions found: %s' % names)
+    for fn in names:
+        f = u.func(fn)
+        ps_ = [p for p, t in f.params]
+        if len(ps_) != 3:
+            ccheck(rep, rule, fn, False, {'problems': ['signature %s' % ps_]},
+                   construct='owner-null')
+            continue
+        inst, owner = ps_[1], ps_[2]
+        probs = []
+        n = 0
+        for ps in returning(S(u, fn)):
+            for who, other in ((owner, inst), (inst, owner)):
+                known = ps.fact(who) is True or ps.fact(other) is False
+                for e in ps.calls():
+                    args = [show(a) for a in (e.e.a[1] if e.e.k == 'call' else [])
+                            if a is not None]
+                    if who in args:
+                        n += 1
+                        # position of the establishing fact must precede the call
+                        ok = False
+                        for key, truth, pos in ps.order:
+                            if pos <= ps.index(e) and ((key == who and truth) or
+                                                       (key == other and not truth)):
+                                ok = True
+                        if not ok:
+                            probs.append('`%s` is passed to %s although it may be NULL '
+                                         '(%s)' % (who, show(e.e)[:60],
+                                                   '__get__(inst) / __get__(inst, None)'
+                                                   if who == owner else 'class access'))
+        ccheck(rep, rule, fn, not probs,
+               'the instance and owner arguments are only handed on after a test '
+               'that establishes them non-NULL (%d uses)' % n if not probs else
+               {'problems': sorted(set(probs))[:3]}, construct='owner-null')
